@@ -69,39 +69,46 @@ impl StreamReader {
         }
 
         // 3. buffer 为空，从 channel 接收新数据
-        match self.reader_rx.recv().await {
-            Some(data) => {
-                let data_len = data.len();
-                tracing::debug!(
-                    "[StreamReader] Received {} bytes from channel (stream_id={})",
-                    data_len,
-                    self.id
-                );
-
-                // 直接填充到 buf
-                let n = std::cmp::min(data.len(), buf.len());
-                buf[..n].copy_from_slice(&data[..n]);
-
-                // 剩余数据放入 buffer
-                if n < data.len() {
-                    self.reader_buffer.extend_from_slice(&data[n..]);
-                    tracing::trace!(
-                        "[StreamReader] Stored {} bytes in buffer (stream_id={})",
-                        data.len() - n,
+        loop {
+            match self.reader_rx.recv().await {
+                Some(data) => {
+                    // An empty chunk carries no bytes: returning Ok(0) for it would look
+                    // like EOF to the caller, so wait for the next chunk instead
+                    if data.is_empty() {
+                        continue;
+                    }
+                    let data_len = data.len();
+                    tracing::debug!(
+                        "[StreamReader] Received {} bytes from channel (stream_id={})",
+                        data_len,
                         self.id
                     );
-                }
 
-                Ok(n)
-            }
-            None => {
-                // Channel 关闭，表示 EOF
-                tracing::debug!(
-                    "[StreamReader] Channel closed (EOF) for stream_id={}",
-                    self.id
-                );
-                self.eof = true;
-                Ok(0)
+                    // 直接填充到 buf
+                    let n = std::cmp::min(data.len(), buf.len());
+                    buf[..n].copy_from_slice(&data[..n]);
+
+                    // 剩余数据放入 buffer
+                    if n < data.len() {
+                        self.reader_buffer.extend_from_slice(&data[n..]);
+                        tracing::trace!(
+                            "[StreamReader] Stored {} bytes in buffer (stream_id={})",
+                            data.len() - n,
+                            self.id
+                        );
+                    }
+
+                    return Ok(n);
+                }
+                None => {
+                    // Channel 关闭，表示 EOF
+                    tracing::debug!(
+                        "[StreamReader] Channel closed (EOF) for stream_id={}",
+                        self.id
+                    );
+                    self.eof = true;
+                    return Ok(0);
+                }
             }
         }
     }
